@@ -221,11 +221,18 @@ func rootSourceFirst(c *Check) string {
 func runC09(c *Check) {
 	c.Explanation = "Decides structural necessary conditions of C09 over everything outside package profile (the parser is C02): every explicit panic is in an inventory and is either discharged by an argument the checker re-verifies (config fields have only the four supported types; web handlers only pass command names that are keys of pprofCommands and parseCommandLine rejects unknown names; demangler modes assigned in Symbolize are cases of demanglerModeToOptions) or is an internal-invariant assertion supported by another rule (R1); every index or slice with constant bounds or len-k bounds is protected by a dominating length check, by its producer, or by a reviewed invariant (R2); no pointer obtained together with a discarded error is dereferenced unchecked (R3); errors of report generation reach PrintErr / http.Error and never a return or exit of the session loop (R4); every constant regular expression and every embedded HTML template compiles (R5). Not decided: hangs, arithmetic panics, nil maps in general, option values rejected late, plug-in behaviour."
 	c.panicInventory()
+	// the functions that take a typed command line apart index their tokens with running
+	// positions: there every index and slice expression is a site, not only the constant ones
+	c.varIdxScope = func(f *ssa.Function) bool {
+		return fnPkgPath(f) == modPath+"/internal/driver" && strings.HasSuffix(c.P.Fset.Position(f.Pos()).Filename, "/interactive.go")
+	}
 	c.guardRule("C09-R2", func(f *ssa.Function) bool {
 		pk := fnPkgPath(f)
 		return pk != modPath+"/profile" && pk != modPath+"/internal/proftest" && !strings.Contains(pk, "third_party") && !strings.Contains(c.P.Fset.Position(f.Pos()).Filename, "/testdata/")
 	}, true, c09GuardExceptions, c09ExceptionHooks)
 	c.Floor("C09-R2", 120)
+	c.paramSliceBounds()
+	c.workListsTerminate()
 	c.discardedErrDeref()
 	c.treeConditionAgreement()
 	c.lockRelease()
@@ -256,6 +263,7 @@ func (c *Check) guardRule(rule string, sel func(*ssa.Function) bool, constOnly b
 	used := map[string]bool{}
 	seenKeys := map[string]bool{}
 	for _, f := range fns {
+		constOnly := constOnly && !(c.varIdxScope != nil && c.varIdxScope(f))
 		for _, s := range g.collectSites(f, constOnly) {
 			seenKeys["idx:"+fnName(f)+":"+s.desc] = true
 			key := "idx:" + fnName(f) + ":" + s.desc
